@@ -46,6 +46,17 @@ let line l =
        let idom = Stdlib.List.map (function A "-" -> None | x -> Some (num_n x)) ds in
        if DegJustify.djust_cfg (r_cfg cx) idom then "(justified)" else "(unjustified)"
      | _ -> "(badline)")
+  | "deggraph" ->
+    (* deggraph (cfg ...) (idom ...) : the decidable hypotheses about the graph and the dominator table of the
+       table-free degree theorems (C07_decides_is_dominance_control_dependence, C07_validated_graph_degrees_true_table_free) *)
+    let rest = Stdlib.String.sub l (sp1 + 1) (Stdlib.String.length l - sp1 - 1) in
+    (match parse_sexp ("(" ^ rest ^ ")") with
+     | L [cx; L (A "idom" :: ds)] ->
+       let idom = Stdlib.List.map (function A "-" -> None | x -> Some (num_n x)) ds in
+       let c = r_cfg cx in
+       if not (DegGraph.graph_consistent c) then "(graph-inconsistent)"
+       else if not (DegGraph.idom_is_dominator_table c idom) then "(idom-not-the-dominator-table)" else "(deg-graph-ok)"
+     | _ -> "(badline)")
   | "ssa" ->
     (* ssa (cfg ...) (dominfo (frontier ..) (children ..)) : the construction mirror *)
     let rest = Stdlib.String.sub l (sp1 + 1) (Stdlib.String.length l - sp1 - 1) in
@@ -64,7 +75,9 @@ let line l =
     (match parse_sexp ("(" ^ rest ^ ")") with
      | L [c; L (A "idom" :: ds)] ->
        let idom = Stdlib.List.map (function A "-" -> None | x -> Some (num_n x)) ds in
-       if SsaCheck.ssa_check (r_cfg c) idom then "(valid)" else "(invalid)"
+       let c = r_cfg c in
+       if not (SsaCheck.ssa_check c idom) then "(invalid)"
+       else if not (SsaCheck.unversioned_reads_ok c) then "(unversioned-local-read)" else "(valid)"
      | _ -> "(badline)")
   | "ssapre" ->
     (* ssapre (cfg before SSA) (dominfo (frontier ..) (children ..)) : the hypotheses of the construction theorems *)
